@@ -14,6 +14,8 @@ from fsic.exceptions import NonConvergenceError, SolutionError
 def bits(x):
     """IEEE-754 bit pattern of a double; every NaN is canonicalised (sign/payload of a NaN are not observable
     through fsic and Lean's `Float.toBits` canonicalises too)."""
+    if isinstance(x, (complex, np.complexfloating)):     # object-dtype series can hold what float64 would call NaN
+        x = x.real if x.imag == 0 else float('nan')
     x = float(x)
     if x != x:
         return 0x7FF8000000000000
